@@ -275,6 +275,8 @@ OPS = ['+', '-', '*', '/', '**']
 def cases(ctx):
     rnd = ctx.rnd
     n = 0
+    if ctx.shard == ctx.nshards - 1:
+        yield ('repo-tests', '', {})
     # directed witnesses (kept in the workload so the mechanisms are always exercised)
     if ctx.shard == 0:
         yield ('src', 'x = "ab"\nx *= len(x)\nx', {})
@@ -385,6 +387,16 @@ def random_number(r):
 
 def run_case(case, ctx):
     import copy
+    if case[0] == 'repo-tests':
+        # the repository's own tests as a workload for the arithmetic monitor (every arithmetic node and numeric builtin they evaluate is judged)
+        from lib import repotests
+        W = ctx.W
+        W.case, W.stack = case, []
+        j0 = W.judged
+        repotests.run(ctx)
+        ctx.count('arithmetic_results_judged_during_the_repository_tests', W.judged - j0)
+        W.stack = []
+        return
     if case[0] == 'rnd':
         r = random.Random(case[1])
         a, b = random_number(r), random_number(r)
